@@ -83,6 +83,11 @@ LEAVES = [
     ("G[int]", G[int], [G[int](item=3)], [G[str](item="s"), 3]),
     ("Node", Node, [Node(value=1), Node(value=1, child=Node(value=2))], [1, None]),
     ("PlainAlias", PlainAlias, [[1, "a"], ()], [[1.5], "ab", 3]),
+    # literals whose members are ==-equal across types: each is its own annotation (1 == True == 1.0, 0 == False)
+    ("LitOne", Literal[1], [1], [True, 1.0, 2, "1"]),
+    ("LitTrue", Literal[True], [True], [1, 1.0, False, "True"]),
+    ("LitZero", Literal[0], [0], [False, 0.0, None]),
+    ("LitFalse", Literal[False], [False], [0, 0.0, None, ""]),
 ]
 
 
@@ -201,6 +206,9 @@ def _leaf_conf(t, v):
         return isinstance(v, Color)
     if n == "Literal":
         return any(type(v) is type(e) and v == e for e in (1, "a"))
+    if n in ("LitOne", "LitTrue", "LitZero", "LitFalse"):
+        e = {"LitOne": 1, "LitTrue": True, "LitZero": 0, "LitFalse": False}[n]
+        return type(v) is type(e) and v == e
     if n == "Any":
         return True
     if n == "Missing":
@@ -244,6 +252,14 @@ def attach_checks(t, kind, subs):
 def terms(depth, rng, budget):
     level = leaf_terms()
     out = list(level)
+    # look-alike literals side by side: in one union (both orders), as items of two containers, in one mapping value union
+    by = {t.name: t for t in level}
+    for a, b in (("LitOne", "LitTrue"), ("LitTrue", "LitOne"), ("LitZero", "LitFalse"), ("LitFalse", "LitZero")):
+        u = attach_checks(build("Union", [by[a], by[b]]), "Union", [by[a], by[b]])
+        out.append(u)
+        sa = attach_checks(build("Sequence", [by[a]]), "Sequence", [by[a]])
+        sb = attach_checks(build("Sequence", [by[b]]), "Sequence", [by[b]])
+        out.append(attach_checks(build("Union", [sa, sb]), "Union", [sa, sb]))
     for d in range(1, depth):
         nxt = []
         for kind in ("Sequence", "tuple...", "Set", "frozenset", "Mapping", "Optional"):
